@@ -457,7 +457,7 @@ def SphHarm_above(l: int, theta: float, phi: float) -> npt.NDArray:
     """
 
     if phi < 0:
-        phi += 2 * np.pi
+        phi = phi + 2 * np.pi
 
     results = []
     for m in range(-l, l + 1):
